@@ -102,6 +102,9 @@ pub fn inputs(tier: Tier) -> Vec<PCase> {
             }
         }
     }
+    // one function body of more than 256 KiB (what a per-function stack or chunking heuristic would key on)
+    v.push(PCase { name: "one function of about 300 KiB".into(), wasm: build(&[37_500], &[], false, false), preserve_ct: false, n_funcs: 1, gc: false, loc_mod: false });
+    v.push(PCase { name: "two functions, the second about 300 KiB".into(), wasm: build(&[2, 37_500], &[], false, false), preserve_ct: false, n_funcs: 2, gc: false, loc_mod: false });
     // the code section's own size prefix at its LEB boundary: one or two functions whose entries
     // total 120..136 bytes, with the code-transform dump as the observer of every reported offset
     for n in [1usize, 2] {
